@@ -62,7 +62,7 @@ def decode_step(p):
 def decode_op(t):
     sel, p = t
     kind = ('process', 'process', 'process', 'process', 'start', 'start', 'restart', 'kill', 'kill', 'pkill', 'state',
-            'forget', 'nongen', 'restart', 'process')[sel % 15]
+            'forget', 'nongen', 'restart', 'process', 'ambush')[sel % 16]
     if kind == 'process':
         return ['process', DTS[p % 8]]
     if kind == 'nongen':
@@ -72,7 +72,7 @@ def decode_op(t):
 
 def strategy():
     step = worldops.packed(6 * 256 * 11 * 3).map(decode_step)
-    op = st.tuples(st.integers(0, 14), st.integers(0, 15)).map(decode_op)
+    op = st.tuples(st.integers(0, 15), st.integers(0, 15)).map(decode_op)
     return st.fixed_dictionaries({
         'scripts': st.lists(st.lists(step, min_size=1, max_size=5), min_size=1, max_size=4),
         'ops': worldops.chunked(op, 40),
@@ -128,6 +128,7 @@ class Run:
         self.startable_in_frame = set()
         self.current = None
         self.killed_since_process = set()
+        self.inject = None
 
     def viol(self, clause, **d):
         d['step'] = self.step_ix
@@ -143,6 +144,13 @@ class Run:
                                      and st_['out'][1] > 0 else st_['out'])) for st_ in script]
         for s, step in enumerate(script):
             self.on_step(i, s)
+            if self.inject is not None and not self.tail:
+                # (armed by the ambush operation: the first body that runs in the frame starts the coroutine that was
+                # killed while it waited)
+                act, self.inject = self.inject, None
+                if act[1] != i and self.state[act[1]] == T and self.gens[act[1]] is not None:
+                    self.do(act[0], act[1], inside=i)
+                    self.flags['killed_waiting_coroutine_started_from_inside_a_body'] += 1
             for act in step['acts']:
                 self.do(act[0], act[1] % self.n, inside=i)
             if step['out'][0] == 'x' and not self.tail:
@@ -519,6 +527,17 @@ class Run:
                 self.op_forget(op[1])
             elif op[0] == 'nongen':
                 self.op_nongen(op[1], op[2])
+            elif op[0] == 'ambush':
+                # a WAITING coroutine is killed from outside; in the next frame the first body that runs starts it
+                # again (its pending kill is revoked) - and goes on with its own step, waits included
+                c = [i for i in range(self.n) if self.state[i] == P and self.gens[i] and not self.finished[i]
+                     and not self.zombie[i]]
+                if c and any(self.state[i] == A for i in range(self.n)):
+                    j = c[op[1] % len(c)]
+                    self.do('kill', j)
+                    self.inject = ['start', j]
+                    self.op_process(DTS[op[1] % 8])
+                    self.inject = None
             elif op[0] == 'restart':
                 # kill immediately followed by start (no frame in between), preferably of a PAUSED coroutine
                 c = [i for i in range(self.n) if self.state[i] == P and self.gens[i]]
